@@ -63,8 +63,8 @@ impl <T: ArrayElement> ArraySearch<T> for Array<T> {
     fn argmax(&self, axis: Option<isize>, keepdims: Option<bool>) -> Result<Array<usize>, ArrayError> {
         if let Some(axis) = axis {
             let axis = self.normalize_axis(axis);
-            let result = self.apply_along_axis(axis, |arr| arr.argmax(None, keepdims));
-            if keepdims == Some(true) { result }
+            let result = self.apply_along_axis(axis, |arr| arr.argmax(None, keepdims))?;
+            if keepdims == Some(true) { Ok(result) }
             else { result.reshape(&self.get_shape()?.remove_at(axis)) }
         } else {
             if self.is_empty()? { return Err(ArrayError::ParameterError { param: "`array`", message: "cannot be empty" }) }
@@ -82,8 +82,8 @@ impl <T: ArrayElement> ArraySearch<T> for Array<T> {
     fn argmin(&self, axis: Option<isize>, keepdims: Option<bool>) -> Result<Array<usize>, ArrayError> {
         if let Some(axis) = axis {
             let axis = self.normalize_axis(axis);
-            let result = self.apply_along_axis(axis, |arr| arr.argmin(None, keepdims));
-            if keepdims == Some(true) { result }
+            let result = self.apply_along_axis(axis, |arr| arr.argmin(None, keepdims))?;
+            if keepdims == Some(true) { Ok(result) }
             else { result.reshape(&self.get_shape()?.remove_at(axis)) }
         } else {
             if self.is_empty()? { return Err(ArrayError::ParameterError { param: "`array`", message: "cannot be empty" }) }
